@@ -158,6 +158,9 @@ impl<'a> Parser<'a> {
         let mut cx = Context::new(self.origin);
         let mut state = State::StartLine;
         let mut stack = self.lexers.len();
+        // RFC 1035 5.1: "a $INCLUDE entry never changes the relative origin of the parent file,
+        // regardless of changes to the relative origin made within the included file"
+        let mut parent_origins: Vec<Option<Name>> = Vec::new();
 
         'outer: while let Some((lexer, path)) = self.lexers.last_mut() {
             while let Some(t) = lexer.next_token()? {
@@ -245,6 +248,7 @@ impl<'a> Parser<'a> {
                             let input = fs::read_to_string(&include)?;
                             let lexer = Lexer::new(input);
                             self.lexers.push((lexer, Some(include)));
+                            parent_origins.push(cx.origin.clone());
                             stack += 1;
                             state = State::StartLine;
                             continue 'outer;
@@ -322,6 +326,9 @@ impl<'a> Parser<'a> {
 
             stack -= 1;
             self.lexers.pop();
+            if let Some(origin) = parent_origins.pop() {
+                cx.origin = origin;
+            }
         }
 
         //
